@@ -12,11 +12,11 @@ NA = {
     "C02": "Equality of four denotations (folded, unfolded, re-folded, deep) over all programs and assignments; which literals fold depends on run-time node kinds and the already_declined propagation inside a loop. Deciding it needs a model of the reducer (proof / model checking) or solver-backed path reasoning - other families. No structural clause is both necessary and visible in the shape of the code (DESIGN.md section 6).",
     "C08": "Correctness of the comma token-stream rewrite for arbitrarily nested calls is a counting argument over the input; that a one-slot pending-call state cannot represent nesting is a design judgement about an algorithm, not a rule derivable from the property without modelling the token language (DESIGN.md section 6).",
     "C14": "Every (length, permutation) schedule of a bit-tricks tracker (rotate_right, leading_ones, cross-word carry) needs bit-vector reasoning or enumeration, both outside static analysis as defined here; the only structural facts (tracker chosen by size) are already enforced by the baseline's 65-variable test (DESIGN.md section 6).",
-    "C15": "Take-versus-clone is decided per occurrence from run-time multiplicities in a counting scan; no path-shape fact separates the correct `> 1` from `>= 1` or `> 2` (DESIGN.md section 6).",
 }
 PENDING = "check under construction (see DESIGN.md section 4); not claimed until its rules are armed"
 
 LEVEL_TEXT = {
+    "C15": "Per-occurrence take/clone bookkeeping decided as a decision table with the relation derived from the comparison, plus origin of the marked position; value equality of the two evaluation styles is not decided.",
     "C16": "Kind/propagation clauses decided for all operand values by exhaustive abstract interpretation over operand kinds; values themselves are not decided.",
     "C17": "Closed-world audit: every may-panic or unchecked-integer site reachable from the Val operator table is in an audited class whose structural guard is re-established on every run; over-approximate (new safe sites are reported).",
     "C19": "Table clause decided for all argument values: every entry of the default float operator table is exactly the documented Rust primitive (resolved callee, argument order), constants carry the documented IEEE bits; defaults resolved at type level.",
